@@ -869,13 +869,12 @@ def import_process_tensor(
             pt.set_mpo_tensor(step, mpo)
             step += 1
 
-        step = 0
-        while True:
+        # copy every cap tensor that is stored (a missing cap for an early
+        # step must not hide the caps of later steps)
+        for step in range(len(pt_file) + 1):
             cap = pt_file.get_cap_tensor(step)
-            if cap is None:
-                break
-            pt.set_cap_tensor(step, cap)
-            step += 1
+            if cap is not None:
+                pt.set_cap_tensor(step, cap)
 
     else:
         raise ValueError("Parameter 'process_tensor_type' must be "\
